@@ -35,7 +35,7 @@ TensorRoutines ==      \* routine, set of flag tuples
 DataRoutines ==
   { <<"cross", fl>> : fl \in { <<cache, dr>> : cache \in BOOLEAN, dr \in {0, 1, 2} } } \cup
   { <<"als", fl>> : fl \in { <<w, lam>> : w \in BOOLEAN, lam \in {"small", "one"} } } \cup
-  { <<"als_adaptive", <<0>> >> } \cup
+  { <<"als_adaptive", <<y0>> >> : y0 \in {"rank1", "overrank"} } \cup      \* initial approximation: rank 1 / ranks above what a core carries
   { <<"anova", <<ord>> >> : ord \in {1, 2} } \cup
   { <<"anova_func", <<0>> >>, <<"als_func", <<0>> >> }
 Cases == { [fam |-> f, routine |-> r[1], flags |-> r[2], data |-> FALSE] : f \in Families, r \in TensorRoutines } \cup
